@@ -1,23 +1,42 @@
 //! uec-harness: correspondence harness between /repo's crates and the Lean models.
 mod driver;
+// Every group of families sits behind a cargo feature (all on by default).  When the full harness no longer compiles
+// against /repo, `./check` builds it with only the families of the property being checked: a change of one API then
+// fails the properties whose tie uses that API, not all nineteen.
+#[cfg(feature = "g_push")]
 mod fam_builder;
+#[cfg(feature = "g_plushy")]
 mod fam_plushy;
+#[cfg(feature = "g_push")]
 mod fam_push;
 #[cfg(feature = "dynfam")]
 mod fam_dyn;
+#[cfg(feature = "g_ops")]
 mod fam_ops;
+#[cfg(feature = "g_res")]
 mod fam_res;
+#[cfg(feature = "g_gen")]
 mod fam_gen;
+#[cfg(feature = "g_generation")]
 mod fam_generation;
+#[cfg(feature = "g_sel")]
 mod fam_sel;
+#[cfg(feature = "g_sel")]
 mod fam_lex;
+#[cfg(feature = "g_stack")]
 mod fam_stack;
+#[cfg(feature = "g_sel")]
 mod fam_wsel;
+#[cfg(feature = "g_sel")]
 mod mutants;
+#[cfg(feature = "g_sel")]
 mod selcommon;
+#[cfg(feature = "g_xo")]
 mod fam_xo;
+#[cfg(feature = "g_mut")]
 mod fam_mut;
 mod prims;
+#[cfg(any(feature = "g_ops", feature = "g_res", feature = "dynfam"))]
 mod probe;
 mod report;
 mod rng;
@@ -58,26 +77,45 @@ fn main() {
     let limit = std::env::var("UEC_CASE_TIMEOUT_S").ok().and_then(|v| v.parse().ok()).unwrap_or(if cfg.thorough { 120 } else { 20 });
     watch::start(&fam, &cfg.out, &cfg.prop, std::time::Duration::from_secs(limit));
     let rep = match fam.as_str() {
+        #[cfg(feature = "g_stack")]
         "stack" => fam_stack::run(&cfg),
+        #[cfg(feature = "g_sel")]
         "sel" => fam_sel::run(&cfg),
+        #[cfg(feature = "g_plushy")]
         "plushy" => fam_plushy::run(&cfg),
+        #[cfg(feature = "g_push")]
         "push-instr" => fam_push::run_instr(&cfg),
+        #[cfg(feature = "g_push")]
         "push-run" => fam_push::run_run(&cfg),
+        #[cfg(feature = "g_push")]
         "push-det" => fam_push::run_det(&cfg),
+        #[cfg(feature = "g_push")]
         "builder" => fam_builder::run(&cfg),
+        #[cfg(feature = "g_push")]
         "builder-probes" => fam_builder::run_probes(&cfg),
+        #[cfg(feature = "g_sel")]
         "wsel" => fam_wsel::run(&cfg),
+        #[cfg(feature = "g_sel")]
         "lex" => fam_lex::run(&cfg),
+        #[cfg(feature = "g_xo")]
         "xo" => fam_xo::run(&cfg),
+        #[cfg(feature = "g_xo")]
         "xo-selftest" => fam_xo::selftest(&cfg),
+        #[cfg(feature = "g_mut")]
         "mut" => fam_mut::run(&cfg),
+        #[cfg(feature = "g_mut")]
         "rates" => fam_mut::run_rates(&cfg),
+        #[cfg(feature = "g_mut")]
         "mut-selftest" => fam_mut::selftest(&cfg),
+        #[cfg(feature = "g_ops")]
         "ops" => fam_ops::run(&cfg),
+        #[cfg(feature = "g_res")]
         "res" => fam_res::run(&cfg),
         #[cfg(feature = "dynfam")]
         "dyn" => fam_dyn::run(&cfg),
+        #[cfg(feature = "g_gen")]
         "gen" => fam_gen::run(&cfg),
+        #[cfg(feature = "g_generation")]
         "generation" => fam_generation::run(&cfg),
         f => { eprintln!("unknown family {f}"); std::process::exit(2) }
     };
